@@ -144,13 +144,14 @@ func (d *Disk) pre(class, op, key string) error {
 	if Debug && d.Sim != nil {
 		d.Sim.Log.Addf("diskop %s %s %s", d.Name, op, key)
 	}
-	if park && d.Sim != nil {
-		d.Sim.Yield("disk:" + d.Name + ":" + op + ":" + key)
-	}
+	var delay time.Duration
 	if lat != nil {
-		if l := lat(op); l > 0 {
-			time.Sleep(l)
-		}
+		delay = lat(op)
+	}
+	if d.Sim != nil && (park || delay > 0) {
+		// latency is served by the scheduler (not by a timer of our own), so
+		// simultaneously due operations wake up in tape order
+		d.Sim.YieldAfter("disk:"+d.Name+":"+op+":"+key, delay)
 	}
 	if fault != nil {
 		if err := fault(class, op, key, idx); err != nil {
